@@ -44,6 +44,8 @@ class Session:
         self.pristine = None
         self.other_alarms = []
         self.shared = {}
+        self.sut_objs = {}  # component objects handed to the SUT, by name (None after a restart)
+        self._pending_obj = None
         self.collapsed = False
         self.violations = []
         self.stats = Counter()
@@ -77,14 +79,21 @@ class Session:
 
     # ------------------------------------------------------------------
     # building arguments afresh for every twin
+    def _keep(self, sysobj, obj):
+        """The caller keeps the component objects it hands to the SUT."""
+        if sysobj is self.sut and self.sut_objs is not None:
+            self._pending_obj = obj
+        return obj
+
     def _call_edit(self, sysobj, op, S):
         k = op["op"]
+        self._pending_obj = None
         if k == "add_source":
-            sysobj.add_source(build(op["comp"]), group=op["group"], rail=op["rail"])
+            sysobj.add_source(self._keep(sysobj, build(op["comp"])), group=op["group"], rail=op["rail"])
         elif k == "add_comp":
-            sysobj.add_comp(copy.deepcopy(op["parent"]), comp=build(op["comp"]), group=op["group"], rail=op["rail"])
+            sysobj.add_comp(copy.deepcopy(op["parent"]), comp=self._keep(sysobj, build(op["comp"])), group=op["group"], rail=op["rail"])
         elif k == "change_comp":
-            sysobj.change_comp(op["name"], comp=build(op["comp"]), group=op["group"], rail=op["rail"])
+            sysobj.change_comp(op["name"], comp=self._keep(sysobj, build(op["comp"])), group=op["group"], rail=op["rail"])
         elif k == "del_comp":
             sysobj.del_comp(op["name"], del_childs=flag(op["del_childs"], op.get("flagform")))
         elif k == "set_sys_phases":
@@ -237,8 +246,10 @@ class Session:
             self.fail("C14", "tree-vs-params-names", "tree %s params %s" % (sorted(seen ^ set(names))[:6], len(names)))
 
     # ------------------------------------------------------------------
-    def build_fresh(self, order_seed=None):
-        """A System built from scratch from the reference model's structure."""
+    def build_fresh(self, order_seed=None, objs=None):
+        """A System built from scratch from the reference model's structure
+        (from fresh component objects, or from the caller's retained ones)."""
+        build = (lambda spec_: objs[spec_["name"]]) if objs is not None else globals()["build"]
         m = self.model
         S = self.w.S
         order = list(m.order)
@@ -297,7 +308,9 @@ class Session:
                 return
             if op["comp"]["kind"] != "Source":
                 return
-            self.sut = S.System(op["name"], build(op["comp"]), group=op["group"], rail=op["rail"])
+            first_ = build(op["comp"])
+            self.sut_objs[op["comp"]["name"]] = first_
+            self.sut = S.System(op["name"], first_, group=op["group"], rail=op["rail"])
             self.shadow = S.System(op["name"], build(op["comp"]), group=op["group"], rail=op["rail"])
             # a third twin that receives the accepted edits and nothing else
             # (no report is ever called on it before the final observation)
@@ -340,6 +353,8 @@ class Session:
             if self._must_reject(sub_):
                 continue
             res = self._guard(lambda: self._call_edit(self.sut, sub_, self.w.S))
+            if res[0] == "ok" and self._pending_obj is not None and self.sut_objs is not None:
+                self.sut_objs[sub_["comp"]["name"]] = self._pending_obj
             if res[0] != "ok":
                 self.stats["bulk_edit_rejected:" + res[1]] += 1
                 if "C16" in self.enabled or "C14" in self.enabled:
@@ -389,6 +404,8 @@ class Session:
         if werr and not accepted and "Warning" in res[1]:
             self.stats["fault_fired:warnings_as_errors"] += 1
             self.stats["warnings_as_errors"] += 1
+        if accepted and self._pending_obj is not None and self.sut_objs is not None:
+            self.sut_objs[op["comp"]["name"]] = self._pending_obj
         if accepted:
             self.dirty = True
             if reason:
